@@ -23,7 +23,8 @@ type Ctx struct {
 	// Alt386 lazily loads ./graphql for GOARCH=386 (thorough tier, lossy-conv)
 	Alt386 func() *pipeline.World
 
-	valHelpers map[*ssa.Function]int // C03: validation helpers of package executor (lazily computed)
+	valHelpers    map[*ssa.Function]int  // C03: validation helpers of package executor (lazily computed)
+	gateHelperSet map[*ssa.Function]bool // C03: list-returning helpers reachable from CreateOperationContext / parseQuery
 }
 
 // GenPkg is one materialised executor package.
